@@ -252,7 +252,112 @@ fn judge_histories<'a>(b: &'a [u8], mut it: Compound<'a>, tiles: &[(usize, usize
         let rest: Vec<u64> = first.map(|r| render(&r)).take(tiles.len() + 2).collect();
         if rest != w[k.min(w.len())..] {
             v.violation = Some(("Iter:resume_differs".into(), format!("after {k} calls the iterator yielded {} more items, expected {}", rest.len(), w.len() - k.min(w.len()))));
+            return;
         }
+    }
+
+    // history 4: nth / skip / step_by / count / last / for_each, mixed with next()
+    if t.choose(2) == 1 {
+        let w: Vec<u64> = want.iter().map(|x| x.0).collect();
+        judge_adaptors(b, &w, t, v);
+    }
+}
+
+/// History 4: the other ways of driving an iterator.  `nth`, `skip`, `step_by`, `count`, `last`,
+/// `fold` / `for_each` are `Iterator` methods like `next`; by default they are built on `next`,
+/// and a type may override them.  Whatever drives the iteration, it must walk the same sequence:
+/// the items of the reference tiles up to and including the first error, then nothing.
+fn judge_adaptors<'a>(b: &'a [u8], w: &[u64], t: &mut Tape, v: &mut Verdict) {
+    let mut it = Compound::parse(b).unwrap();
+    let mut pos = 0usize;
+    let n_ops = 1 + t.choose(6);
+    let bad = |what: String| Some(("Iter:adaptor_differs".to_string(), what));
+    for step in 0..n_ops {
+        v.events += 1;
+        let op = t.choose(8);
+        match op {
+            0 => {
+                let got = it.next().map(|r| render(&r));
+                if got != w.get(pos).copied() {
+                    v.violation = bad(format!("op {step}: next() at position {pos} of {} differs from the reference sequence", w.len()));
+                    return;
+                }
+                pos = (pos + 1).min(w.len());
+            }
+            1 | 5 => {
+                let k = t.choose(4);
+                let got = if op == 1 { it.nth(k) } else { it.by_ref().skip(k).next() }.map(|r| render(&r));
+                if got != w.get(pos + k).copied() {
+                    v.violation = bad(format!("op {step}: {}({k}) at position {pos} of {} differs from the reference sequence", if op == 1 { "nth" } else { "skip(k).next" }, w.len()));
+                    return;
+                }
+                pos = (pos + k + 1).min(w.len());
+            }
+            2 => {
+                let _ = it.size_hint();
+            }
+            3 => {
+                let got = it.by_ref().count();
+                if got != w.len() - pos {
+                    v.violation = bad(format!("op {step}: count() at position {pos} returned {got}, the reference sequence has {} items left", w.len() - pos));
+                    return;
+                }
+                pos = w.len();
+            }
+            4 => {
+                let got = it.by_ref().last().map(|r| render(&r));
+                let want = if pos < w.len() { w.last().copied() } else { None };
+                if got != want {
+                    v.violation = bad(format!("op {step}: last() at position {pos} of {} differs from the reference sequence", w.len()));
+                    return;
+                }
+                pos = w.len();
+            }
+            6 => {
+                let k = 1 + t.choose(3);
+                let got: Vec<u64> = it.by_ref().step_by(k).take(2).map(|r| render(&r)).collect();
+                let want: Vec<u64> = [pos, pos + k].iter().filter_map(|i| w.get(*i).copied()).collect();
+                if got != want {
+                    v.violation = bad(format!("op {step}: step_by({k}).take(2) at position {pos} yielded {} items, the reference sequence gives {}", got.len(), want.len()));
+                    return;
+                }
+                // (step_by takes the first item with next() and each further one with nth(k-1).)  How
+                // many items StepBy consumes behind the last one it yields is its own business:
+                // what follows must be a suffix of the reference sequence
+                return resync_rest(it, w, v, step);
+            }
+            _ => {
+                let mut got = Vec::new();
+                it.by_ref().for_each(|r| got.push(render(&r)));
+                if got != w[pos.min(w.len())..] {
+                    v.violation = bad(format!("op {step}: for_each at position {pos} visited {} items, the reference sequence has {} left", got.len(), w.len() - pos.min(w.len())));
+                    return;
+                }
+                pos = w.len();
+            }
+        }
+    }
+    // whatever was consumed, the rest is the rest of the reference sequence and then nothing
+    let rest: Vec<u64> = it.by_ref().take(w.len() + 2).map(|r| render(&r)).collect();
+    if rest != w[pos.min(w.len())..] {
+        v.violation = bad(format!("after the adaptor calls the iterator yielded {} more items, the reference sequence has {} left", rest.len(), w.len() - pos.min(w.len())));
+        return;
+    }
+    if it.next().is_some() {
+        v.violation = Some(("Iter:some_after_end".into(), "next() after adaptor-driven exhaustion returned an item again".into()));
+    }
+}
+
+/// After an adaptor whose consumption count is not specified: what follows must be a suffix of
+/// the reference sequence, then nothing.
+fn resync_rest(mut it: Compound<'_>, w: &[u64], v: &mut Verdict, step: usize) {
+    let rest: Vec<u64> = it.by_ref().take(w.len() + 2).map(|r| render(&r)).collect();
+    if rest.len() > w.len() || w[w.len() - rest.len()..] != rest[..] {
+        v.violation = Some(("Iter:adaptor_differs".to_string(), format!("op {step}: after step_by the iterator yielded {} items that are not a suffix of the reference sequence", rest.len())));
+        return;
+    }
+    if it.next().is_some() {
+        v.violation = Some(("Iter:some_after_end".into(), "next() after adaptor-driven exhaustion returned an item again".into()));
     }
 }
 
@@ -293,7 +398,7 @@ fn delivery(seed: u64, idx: u64, ctx: &mut Ctx<'_>, out: &mut Vec<Violation>, tr
             ctx.stats.fault(f.kind_name(), 1);
         }
     }
-    let tape_vals: Vec<u32> = (0..48).map(|_| tr.u32()).collect();
+    let tape_vals: Vec<u32> = (0..72).map(|_| tr.u32()).collect();
     let mut tape = Tape::replaying(tape_vals);
     ctx.stats.evaluations += 1;
     ctx.publish_raw(idx, d, &tape.vals_for_publish());
